@@ -31,7 +31,12 @@ func (f *Formatter) formatAclDeclaration(decl *ast.AclDeclaration) *Declaration 
 		}
 		buf.WriteString(`"` + cidr.IP.Value + `"`)
 		if cidr.Mask != nil {
-			buf.WriteString("/" + f.formatNode(cidr.Mask))
+			buf.WriteString("/")
+			// "//" and "/*" would start a comment
+			if len(cidr.Mask.Leading) > 0 {
+				buf.WriteString(" ")
+			}
+			buf.WriteString(f.formatNode(cidr.Mask))
 		}
 		if v := f.formatComment(cidr.IP.Trailing, " ", 0); v != "" {
 			buf.WriteString(" " + v)
